@@ -127,8 +127,8 @@ func c10NewEncoder(init int) (*encode.Encoder, int) {
 }
 
 type c10Case struct {
-	Init    int   `json:"init"`
-	Letters []int `json:"letters"`
+	Init    int    `json:"init"`
+	Letters []int  `json:"letters"`
 	Names   string `json:"history,omitempty"`
 }
 
@@ -157,7 +157,7 @@ func init() {
 			"In every state: Bytes errs iff the automaton is in error, the error value is the first one and sticky, Bytes twice equal, closed error-free histories decode to exactly the calls since the last Reset, zero-value and Reset(default) objects agree on bytes, errors and read-backs. " +
 			"states = distinct canonical Encoder states seen, transitions = calls executed in the BFS, evaluations = histories judged; non-trivial = history reaches the error state or contains a closed path",
 		Assumptions: []string{"abstraction drops the fields buf, altBuf, scratch, metadata (write-only after Reset); merges are validated by comparing incremental outputs on all 1-letter (depth<=5) and 2-letter (depth<=3) suffixes"},
-		Units: func(tier string) int { return 3*nl*nl + 1 },
+		Units:       func(tier string) int { return 3*nl*nl + 1 },
 		Run: func(w *mc.W, u int) {
 			if u == 3*nl*nl {
 				c10BFS(w)
@@ -265,7 +265,9 @@ func c10Exec(init int, letters []int) c10Obs {
 func c10Check(w *mc.W, init int, letters []int) {
 	w.Eval()
 	w.Trace()
-	cs := func() c10Case { return c10Case{Init: init, Letters: append([]int(nil), letters...), Names: c10Inits[init] + ": " + c10Names(letters)} }
+	cs := func() c10Case {
+		return c10Case{Init: init, Letters: append([]int(nil), letters...), Names: c10Inits[init] + ": " + c10Names(letters)}
+	}
 	o := c10Exec(init, letters)
 	if o.state == -1 {
 		w.Fail("bytes-twice-differ", "two consecutive Bytes() calls disagree after "+c10Names(letters), cs())
